@@ -25,7 +25,8 @@ def node_machine(mid, root=False):
         return n
     on = {
         "CMD": {"actions": [A("cmd"), {"type": "xstate.pure", "params": {"get": {"$fn": {"k": "cmd", "name": "cmd"}}}}]},
-        "PING": {"actions": [A("got")]},
+        # (the counter makes processed messages visible in the actor's persisted context: C12 compares it after a restore)
+        "PING": {"actions": [A("got"), {"type": "xstate.assign", "params": {"assignment": {"$fn": {"k": "assign", "name": "asg_p", "ops": [["inc", "p", 1]]}}}}]},
         "FROMCHILD": {"actions": [A("gotup")]},
         "FIN": {"target": f"#{mid}.end", "actions": [A("fin")]},
     }
@@ -43,7 +44,7 @@ def node_machine(mid, root=False):
         run["states"] = {"idle": {"on": {"HOST": {"target": f"#{mid}.run.hosting", "actions": [A("host")]}}},
                          "hosting": {"invoke": {"src": "node1", "id": "h1"},
                                      "on": {"UNHOST": {"target": f"#{mid}.run.idle", "actions": [A("unhost")]}}}}
-    cfg = {"id": mid, "initial": "run", "context": {},
+    cfg = {"id": mid, "initial": "run", "context": {"p": 0},
            "states": {"run": run,
                       "end": {"type": "final", "entry": [A(f"en.{mid}.end")]}}}
     return cfg, acts
